@@ -144,9 +144,10 @@ func c17NewSystem(name string, opts ...Option) *actorSystem {
 }
 
 type c17Probe struct {
-	id     string
-	target string
-	err    error
+	id      string
+	target  string
+	stopped bool // the target's PostStop had returned when the probe was sent
+	err     error
 }
 
 func c17Run(t *testing.T, shape c17Shape, c *vsched.Chooser) vsched.Outcome {
@@ -294,20 +295,25 @@ func c17Run(t *testing.T, shape c17Shape, c *vsched.Chooser) vsched.Outcome {
 		probeNo := 0
 		step := func(label string) {
 			vfSettle()
-			// probe every actor whose PostStop has returned
+			// once Stop has been called: probe every actor. O5 is demanded only of the probes whose
+			// target's PostStop had returned before the probe was sent (stopped=true); the others only
+			// exercise the enqueue gate of a stopping system and fall under O4.
 			snap := lg.snapshot()
-			for i := 0; i < n; i++ {
+			stopCalled := false
+			for _, e := range snap {
+				if e == "stop-called" {
+					stopCalled = true
+				}
+			}
+			for i := 0; i < n && stopCalled; i++ {
 				stopped := false
 				for _, e := range snap {
 					if e == "poststop-exit:"+c17Names[i] {
 						stopped = true
 					}
 				}
-				if !stopped {
-					continue
-				}
 				probeNo++
-				pr := c17Probe{id: fmt.Sprintf("p%d", probeNo), target: c17Names[i]}
+				pr := c17Probe{id: fmt.Sprintf("p%d", probeNo), target: c17Names[i], stopped: stopped}
 				pr.err = Tell(ctx, pids[i], &c17Msg{id: pr.id})
 				probes = append(probes, pr)
 			}
@@ -361,7 +367,7 @@ func c17Run(t *testing.T, shape c17Shape, c *vsched.Chooser) vsched.Outcome {
 		// --- after Stop returned: sends to every actor and grain
 		for i := 0; i < n; i++ {
 			probeNo++
-			pr := c17Probe{id: fmt.Sprintf("p%d", probeNo), target: c17Names[i]}
+			pr := c17Probe{id: fmt.Sprintf("p%d", probeNo), target: c17Names[i], stopped: true}
 			pr.err = Tell(ctx, pids[i], &c17Msg{id: pr.id})
 			probes = append(probes, pr)
 		}
@@ -456,6 +462,9 @@ func c17Run(t *testing.T, shape c17Shape, c *vsched.Chooser) vsched.Outcome {
 	}
 	// O5
 	for _, pr := range probes {
+		if !pr.stopped {
+			continue
+		}
 		handled := len(index("enter:"+pr.target+":"+pr.id)) > 0
 		if handled {
 			fail("message-to-stopped-actor-handled", "probe %s sent to %s after its PostStop returned was handled; log: %v", pr.id, pr.target, evs)
